@@ -1,8 +1,9 @@
 (** Instantiation of the font-level signature (Model/FontRT.v) with the real part models, as far
     as they go.  Definitions only; the laws are proved in Proofs/FontRealP.v.
 
-    [real_sig pf ff ff3 fi fh B] takes an arbitrary base signature [B] for the parts that stay
-    abstract and REPLACES
+    [real_sig pf ff ff3 fi fh K] takes the file codecs of the plist layer as a parameter [K] (a
+    record [codecs]: metainfo, lib, groups, kerning, layercontents, contents, layerinfo) and
+    PLUGS IN
       - the glif codec by the real one: [T_glyph] = the glyph value type of Model/Glif.v,
         [enc] = [encode_glif] (Model/GlifEncode.v), [dec] = [parse_glif] (Model/GlifParse.v),
         [glyph_name] = [gname], [set_name] = the assignment [glyph.name = name] of Layer::load_impl;
@@ -17,12 +18,15 @@
         (C13_entry_points_agree).
       - groups and kerning by the real maps of Model/Groups.v with the real validator
         [validate_groups] (C15_validate_iff), the real emptiness tests and the real kerning
-        upconversion; their file codecs [PG] / [PK] stay parameters.
+        upconversion; their file codecs are [K_groups] / [K_kerning];
+      - plist values and dictionaries by the real type of Model/Plist.v with [Dictionary::get /
+        insert / remove]; the dictionary algebra of the signature is proved.
     The library functions [pf] (f64::from_str), [ff] (f64 Display), [ff3] ({:.3}), [fi], [fh] stay
     parameters; what is assumed about them is the L1 hypothesis list of C02 ([L1_glif]).
 
-    The content type of the real signature is the base content plus glif documents; the write
-    options are the glif writer's options paired with the base options. *)
+    The content type of the real signature is the plist-layer content plus glif documents plus the
+    fontinfo record of C13; the write options are the glif writer's options paired with the
+    plist-layer options. *)
 Require Import Norad.Model.GlifSpec Norad.Model.GlifDen Norad.Model.GlifEncode.
 Require Import Norad.Proofs.GlifEncodeP Norad.Proofs.GlifRoundtripP.
 Require Norad.Model.Groups.
@@ -37,15 +41,38 @@ Definition groups_ok_real (g : GR.groups) : bool :=
 Definition upconvert_real (g : GR.groups) (k : GR.kerning) (gs : list str) : GR.groups * GR.kerning :=
   match GR.upconvert_kerning g k gs with Ok p => p | _ => (g, k) end.   (* total: C15_upconvert_total *)
 
+(** ** plist dictionaries: the real value type of Model/Plist.v.  [Dictionary::get] = first match,
+    [insert] = replace in place or append ([dict_insert]), [remove] = drop the key; two dictionaries
+    are equal when they answer every lookup alike (key order is not observable). *)
+Definition pd_del (k : str) (d : dict) : dict := filter (fun e => negb (str_eqb (fst e) k)) d.
+Definition pd_eq (a b : dict) : Prop := forall k, alookup k a = alookup k b.
+
+(** ** what stays abstract: the file codecs of the plist layer (and the colour type) *)
+Record codecs : Type := {
+  K_content : Type;                 (* content of metainfo / lib / groups / kerning / layercontents /
+                                       contents / layerinfo files *)
+  K_opts : Type;
+  K_color : Type;
+  K_meta : part K_content K_opts meta;
+  K_lib : part K_content K_opts dict;
+  K_groups : part K_content K_opts GR.groups;
+  K_kerning : part K_content K_opts GR.kerning;
+  K_lc : part K_content K_opts (list (str * str));
+  K_contents : part K_content K_opts (list (str * str));
+  K_li : part K_content K_opts (option K_color * option dict);
+  K_ceq : K_color -> K_color -> Prop;
+  K_wf_color : K_color -> Prop;
+  K_lc_entry_wf : str * str -> Prop;
+  K_wf_key : str -> Prop;           (* keys / values the plist writer represents *)
+  K_wf_pv : pv -> Prop;
+  K_lower : str -> str }.           (* str::to_lowercase *)
+
 Section Real.
 Variable pf : str -> option fl.
 Variables ff ff3 : fl -> str.
 Variable fi : Z -> str.
 Variable fh : N -> str.
-Variable B : sig.
-(** the groups.plist / kerning.plist codecs on the real maps (plist layer and number writer: abstract) *)
-Variable PG : part (T_content B) (T_opts B) GR.groups.
-Variable PK : part (T_content B) (T_opts B) GR.kerning.
+Variable K : codecs.
 
 (** what is assumed about the library functions (the L1 hypotheses of C02_roundtrip_partial, with
     the colour relation "is what the three-decimal rendering reads back as") *)
@@ -55,11 +82,11 @@ Definition L1_glif : Prop :=
      ~ In 44 (ff3 x) /\ exists y, pf (chan ff3 x) = Some y /\ unit_range y = true) /\
   (forall c, is_scalar c = true -> parse_hex (fh c) = Some c).
 
-Inductive rcontent : Type := RBase (c : T_content B) | RGlif (d : doc) | RInfo (r : FI.raw).
-Definition ropts : Type := (wopts * T_opts B)%type.
+Inductive rcontent : Type := RBase (c : K_content K) | RGlif (d : doc) | RInfo (r : FI.raw).
+Definition ropts : Type := (wopts * K_opts K)%type.
 
-(** a part of the base signature over the larger content type *)
-Definition lift {X} (p : part (T_content B) (T_opts B) X) : part rcontent ropts X :=
+(** a codec of the plist layer over the larger content type *)
+Definition lift {X} (p : part (K_content K) (K_opts K) X) : part rcontent ropts X :=
   {| enc := fun o x => option_map RBase (enc p (snd o) x);
      dec := fun c => match c with RBase c => dec p c | _ => None end;
      wf := wf p; peq := peq p |}.
@@ -100,23 +127,24 @@ Definition set_gname (n : str) (g : glyph) : glyph :=
           (gcomps g) (gcontours g) (glib g).
 
 Definition real_sig : sig := {|
-  T_content := rcontent; T_opts := ropts; T_pv := T_pv B; T_dict := T_dict B;
-  T_irest := rinfo; T_gbody := rline; T_color := T_color B; T_groups := GR.groups;
+  T_content := rcontent; T_opts := ropts; T_pv := pv; T_dict := dict;
+  T_irest := rinfo; T_gbody := rline; T_color := K_color K; T_groups := GR.groups;
   T_kerning := GR.kerning; T_glyph := glyph;
-  veq := veq B; deq := deq B; d_empty := d_empty B; d_get := d_get B; d_set := d_set B; d_del := d_del B;
-  d_is_empty := d_is_empty B; mk_dict := mk_dict B; as_dict := as_dict B;
-  wf_key := wf_key B; wf_pv := wf_pv B; wf_color := wf_color B; lc_entry_wf := lc_entry_wf B;
-  P_meta := lift (P_meta B);
+  veq := eq; deq := pd_eq; d_empty := []; d_get := fun k d => alookup k d; d_set := dict_insert; d_del := pd_del;
+  d_is_empty := fun d => is_nil d; mk_dict := PDict;
+  as_dict := fun v => match v with PDict d => Some d | _ => None end;
+  wf_key := K_wf_key K; wf_pv := K_wf_pv K; wf_color := K_wf_color K; lc_entry_wf := K_lc_entry_wf K;
+  P_meta := lift (K_meta K);
   P_info := P_info_real rcontent ropts RInfo (fun c => match c with RInfo r => Some r | _ => None end);
-  P_lib := lift (P_lib B);
-  P_groups := lift PG; P_kerning := lift PK; P_lc := lift (P_lc B);
-  P_contents := lift (P_contents B); P_li := lift (P_li B);
+  P_lib := lift (K_lib K);
+  P_groups := lift (K_groups K); P_kerning := lift (K_kerning K); P_lc := lift (K_lc K);
+  P_contents := lift (K_contents K); P_li := lift (K_li K);
   P_glif := P_glif_real;
   irest_dflt := info_none; irest_is_dflt := info_is_none;
   groups_dflt := []; groups_is_empty := fun g => is_nil g;
   kerning_dflt := []; kerning_is_empty := fun k => is_nil k;
-  ceq := ceq B; groups_ok := groups_ok_real; info_ok := info_ok_real;
-  lower := lower B;
+  ceq := K_ceq K; groups_ok := groups_ok_real; info_ok := info_ok_real;
+  lower := K_lower K;
   glyph_name := gname; set_name := set_gname;
   (* format 1 / 2 font info is not part of the real instance (C14 owns the conversion) *)
   legacy_info := fun _ _ => None;
@@ -125,42 +153,33 @@ Definition real_sig : sig := {|
 
 End Real.
 
-(** ** the laws that remain hypotheses: those of [sig_ok] about the parts the base signature still
-    provides — metainfo, lib, layercontents, contents, layerinfo and the dictionary algebra — plus
-    those of the groups.plist / kerning.plist codecs [PG] / [PK].  (The laws about the glif codec,
-    glyph names, the font-info codec, its default and its validator, the groups validator and the
-    emptiness tests and defaults of groups and kerning are PROVED for the real models.) *)
-Record base_laws (B : sig) (PG : part (T_content B) (T_opts B) GR.groups)
-                 (PK : part (T_content B) (T_opts B) GR.kerning) : Prop := {
-  b_meta : part_ok (P_meta B); b_lib : part_ok (P_lib B); b_lc : part_ok (P_lc B);
-  b_contents : part_ok (P_contents B); b_li : part_ok (P_li B);
-  (** the groups.plist and kerning.plist codecs: lawful, groups come back exactly, the empty maps
-      are representable (plist layer; kerning numbers: Model/Num.v) *)
-  b_groups : part_ok PG; b_kerning : part_ok PK;
-  b_groups_exact : forall a b, peq PG a b -> a = b;
-  b_groups_nil_wf : wf PG []; b_kerning_nil_wf : wf PK [];
-  b_meta_exact : forall a b, peq (P_meta B) a b -> a = b;
-  b_lc_exact : forall a b, peq (P_lc B) a b -> a = b;
-  b_contents_exact : forall a b, peq (P_contents B) a b -> a = b;
-  b_lc_wf : forall l, wf (P_lc B) l <-> Forall (lc_entry_wf B) l;
-  b_li_wf : forall c ol, wf (P_li B) (c, ol) <->
-            (forall k, c = Some k -> wf_color B k) /\ (forall l, ol = Some l -> wf_dict B l);
-  b_li_eq : forall a b, peq (P_li B) a b <-> orel (ceq B) (fst a) (fst b) /\ orel (deq B) (snd a) (snd b);
-  b_lib_wf : forall d, wf (P_lib B) d <-> wf_dict B d;
-  b_lib_eq : forall a b, peq (P_lib B) a b <-> deq B a b;
-  b_veq_refl : forall v, veq B v v;
-  b_veq_sym : forall v w, veq B v w -> veq B w v;
-  b_veq_trans : forall u v w, veq B u v -> veq B v w -> veq B u w;
-  b_get_empty : forall k, d_get B k (d_empty B) = None;
-  b_get_set : forall k k' v d, d_get B k (d_set B k' v d) = if str_eqb k k' then Some v else d_get B k d;
-  b_get_del : forall k k' d, d_get B k (d_del B k' d) = if str_eqb k k' then None else d_get B k d;
-  b_is_empty_get : forall d, d_is_empty B d = true <-> forall k, d_get B k d = None;
-  b_deq_get : forall a b, deq B a b <-> forall k, orel (veq B) (d_get B k a) (d_get B k b);
-  b_as_mk : forall d, as_dict B (mk_dict B d) = Some d;
-  b_as_dict_veq : forall v w, veq B v w -> orel (deq B) (as_dict B v) (as_dict B w);
-  b_wf_mk : forall d, wf_dict B d -> wf_pv B (mk_dict B d);
-  b_wf_as : forall v d, wf_pv B v -> as_dict B v = Some d -> wf_dict B d;
-  b_wf_obj_key : wf_key B OBJ }.
+(** ** the laws that remain hypotheses: all about the file codecs of the plist layer.
+    (The laws about the glif codec and glyph names, the font-info codec / default / validator, the
+    groups validator, the emptiness tests and defaults of groups and kerning, and the whole
+    dictionary algebra are PROVED for the real models.) *)
+Definition real_wf_dict (K : codecs) (d : dict) : Prop :=
+  forall k v, alookup k d = Some v -> K_wf_key K k /\ K_wf_pv K v.
+Record codecs_ok (K : codecs) : Prop := {
+  k_meta : part_ok (K_meta K); k_lib : part_ok (K_lib K); k_groups : part_ok (K_groups K);
+  k_kerning : part_ok (K_kerning K); k_lc : part_ok (K_lc K); k_contents : part_ok (K_contents K);
+  k_li : part_ok (K_li K);
+  (** metainfo, layercontents, contents and groups come back exactly *)
+  k_meta_exact : forall a b, peq (K_meta K) a b -> a = b;
+  k_lc_exact : forall a b, peq (K_lc K) a b -> a = b;
+  k_contents_exact : forall a b, peq (K_contents K) a b -> a = b;
+  k_groups_exact : forall a b, peq (K_groups K) a b -> a = b;
+  (** which values the writers represent *)
+  k_lc_wf : forall l, wf (K_lc K) l <-> Forall (K_lc_entry_wf K) l;
+  k_li_wf : forall c ol, wf (K_li K) (c, ol) <->
+            (forall x, c = Some x -> K_wf_color K x) /\ (forall l, ol = Some l -> real_wf_dict K l);
+  k_lib_wf : forall d, wf (K_lib K) d <-> real_wf_dict K d;
+  k_groups_nil_wf : wf (K_groups K) []; k_kerning_nil_wf : wf (K_kerning K) [];
+  k_wf_mk : forall d, real_wf_dict K d -> K_wf_pv K (PDict d);
+  k_wf_as : forall d, K_wf_pv K (PDict d) -> real_wf_dict K d;
+  k_wf_obj_key : K_wf_key K OBJ;
+  (** the equalities of the lib and layerinfo codecs are the dictionary equality *)
+  k_lib_eq : forall a b, peq (K_lib K) a b <-> pd_eq a b;
+  k_li_eq : forall a b, peq (K_li K) a b <-> orel (K_ceq K) (fst a) (fst b) /\ orel pd_eq (snd a) (snd b) }.
 
 (** a lib-free glyph with code points, a note, an anchor, a component and a contour (no colour, so
     it is canonical for every library function) *)
